@@ -41,6 +41,59 @@ impl Min {
     }
 }
 
+fn src_searches_mut<'a>(src: &'a mut IterSrc, out: &mut Vec<&'a mut usize>, hays: &mut Vec<&'a mut Hay>) {
+    match src {
+        IterSrc::Mem { q, .. } => {
+            out.push(&mut q.s);
+            hays.push(&mut q.hay);
+        }
+        IterSrc::Stream(p) => out.push(&mut p.s),
+    }
+}
+
+/// Mutable access to every searcher index and haystack reference of an operation.
+fn op_refs_mut<'a>(op: &'a mut Op, out: &mut Vec<&'a mut usize>, hays: &mut Vec<&'a mut Hay>) {
+    match op {
+        Op::Find(q) | Op::FindInfallible(q) | Op::IsMatch(q) => {
+            out.push(&mut q.s);
+            hays.push(&mut q.hay);
+        }
+        Op::Iter { q, .. } | Op::ReplaceAll { q, .. } | Op::ReplaceAllWith { q, .. } => {
+            out.push(&mut q.s);
+            hays.push(&mut q.hay);
+        }
+        Op::Stream(p) => out.push(&mut p.s),
+        Op::Interleave2 { a, b } => {
+            src_searches_mut(a, out, hays);
+            src_searches_mut(b, out, hays);
+        }
+        Op::WithClone(inner) => op_refs_mut(inner, out, hays),
+        Op::StartIter { src, .. } => src_searches_mut(src, out, hays),
+        Op::ResumeIter { .. } => {}
+    }
+}
+
+fn remove_searcher(sc: &ThreadScenario, k: usize) -> Option<ThreadScenario> {
+    let mut c = sc.clone();
+    for t in c.threads.iter_mut() {
+        for op in t.iter_mut() {
+            let mut ss = Vec::new();
+            let mut hs = Vec::new();
+            op_refs_mut(op, &mut ss, &mut hs);
+            for s in ss {
+                if *s == k {
+                    return None; // still used
+                }
+                if *s > k {
+                    *s -= 1;
+                }
+            }
+        }
+    }
+    c.searchers.remove(k);
+    Some(c)
+}
+
 pub fn minimise(sc: &ThreadScenario, target: &str, budget: usize) -> (ThreadScenario, usize) {
     let mut min = Min { target: target.to_string(), budget, used: 0 };
     let mut cur = match min.fails(sc) {
@@ -170,19 +223,73 @@ pub fn minimise(sc: &ThreadScenario, target: &str, budget: usize) -> (ThreadScen
                 i += 1;
             }
         }
-        // unused searchers at the end
-        while cur.searchers.len() > 1 {
-            let last = cur.searchers.len() - 1;
-            let used = cur.threads.iter().flatten().any(|op| crate::texec::op_searchers(op).contains(&last));
-            if used {
-                break;
+        // unused searchers (indices are remapped)
+        let mut k = 0;
+        while cur.searchers.len() > 1 && k < cur.searchers.len() {
+            match remove_searcher(&cur, k) {
+                Some(cand) => {
+                    if min.try_apply(&mut cur, cand) {
+                        progress = true;
+                    } else {
+                        k += 1;
+                    }
+                }
+                None => k += 1,
             }
-            let mut cand = cur.clone();
-            cand.searchers.pop();
-            if !min.try_apply(&mut cur, cand) {
-                break;
+        }
+        // patterns
+        for si in 0..cur.searchers.len() {
+            let mut pi = 0;
+            while cur.searchers[si].patterns.len() > 1 && pi < cur.searchers[si].patterns.len() {
+                let mut cand = cur.clone();
+                cand.searchers[si].patterns.remove(pi);
+                if min.try_apply(&mut cur, cand) {
+                    progress = true;
+                } else {
+                    pi += 1;
+                }
             }
-            progress = true;
+        }
+        // haystacks: halve per-thread buffer fills and scenario-owned haystacks
+        for t in 0..cur.threads.len() {
+            for i in 0..cur.threads[t].len() {
+                loop {
+                    let mut cand = cur.clone();
+                    let mut changed = false;
+                    {
+                        let mut ss = Vec::new();
+                        let mut hs = Vec::new();
+                        op_refs_mut(&mut cand.threads[t][i], &mut ss, &mut hs);
+                        for h in hs {
+                            if let Hay::Buf { fill, .. } = h {
+                                if fill.len() > 4 {
+                                    let n = fill.len() / 2;
+                                    fill.truncate(n);
+                                    changed = true;
+                                }
+                            }
+                        }
+                    }
+                    if !changed || !min.try_apply(&mut cur, cand) {
+                        break;
+                    }
+                    progress = true;
+                }
+            }
+        }
+        for h in 0..cur.fixed_hays.len() {
+            loop {
+                if cur.fixed_hays[h].len() <= 4 {
+                    break;
+                }
+                let mut cand = cur.clone();
+                let n = cand.fixed_hays[h].len() / 2;
+                cand.fixed_hays[h].truncate(n);
+                if !min.try_apply(&mut cur, cand) {
+                    break;
+                }
+                progress = true;
+            }
         }
         if !progress || min.used >= min.budget {
             break;
